@@ -608,10 +608,6 @@ func (rs *runState) judge(hist []opA, si stepInfo, j *judgeCtx) {
 	l := j.l
 	cfg := rs.cfg
 	faultHere := o.Fault >= 0
-	fdesc := ""
-	if faultHere {
-		fdesc = fmt.Sprintf("%s(call %d of %s)", si.ob.Failed, o.Fault+1, strings.Join(si.ob.Calls, ","))
-	}
 	switch o.Kind {
 	case 'T':
 		l.Outcome("A tick")
@@ -638,7 +634,7 @@ func (rs *runState) judge(hist []opA, si stepInfo, j *judgeCtx) {
 			l.Add("A.probes", 1)
 			if probeReached && !probeP && rs.faultUsed && !faultHere {
 				_, why := rs.m.allows(cfg.Extractor, v, v, rs.s.issued)
-				j.col.add(j.ord, fmt.Sprintf("A dead-token-accepted-after-ignored-store-fault why=%s failed=%s backend=%s singleuse=%v", why, rs.faultCall, cfg.Backend, cfg.SingleUse),
+				j.col.add(j.ord, fmt.Sprintf("A dead-token-accepted-after-ignored-store-fault why=%s failed=%s backend=%s", why, rs.faultCall, cfg.Backend),
 					"an unsafe request reached the handler with a token that is "+why+"; an earlier storage failure was swallowed by the middleware",
 					rs.caseOf(hist, "probe: POST presenting the cookie's token as token and cookie"), pob, "rejected ("+why+")")
 			} else if probeReached && !probeP {
@@ -654,7 +650,7 @@ func (rs *runState) judge(hist []opA, si stepInfo, j *judgeCtx) {
 				l.Add("unspecified_skipped", 1) // over-determined by the statement: either clause satisfied
 				l.Add("A.safe_with_fault_one_clause_satisfied", 1)
 			} else {
-				j.col.add(j.ord, fmt.Sprintf("A store-fault-ignored req=safe backend=%s failed=%s", cfg.Backend, fdesc),
+				j.col.add(j.ord, fmt.Sprintf("A store-fault-ignored req=safe backend=%s failed=%s", cfg.Backend, si.ob.Failed),
 					"a storage call failed during a safe request; the request was neither rejected nor did it leave a valid token cookie (the cookie's token is not accepted afterwards)",
 					rs.caseOf(hist, "probe: POST presenting the cookie's token as token and cookie"), map[string]any{"safe_request": si.ob, "probe": pob},
 					"either rejected (token store failed) or passes and leaves a valid token cookie")
@@ -692,12 +688,13 @@ func (rs *runState) judge(hist []opA, si stepInfo, j *judgeCtx) {
 				l.Add("A.rejected_on_store_fault", 1)
 			} else {
 				l.Add("A.model_allows_but_rejected", 1)
+				l.Add("A.model_allows_but_rejected."+cfg.Backend, 1)
 				l.Add("unspecified_skipped", 1)
 			}
 		}
 		if si.ob.Reached && !si.P {
 			if rs.faultUsed && !faultHere {
-				j.col.add(j.ord, fmt.Sprintf("A dead-token-accepted-after-ignored-store-fault why=%s failed=%s backend=%s singleuse=%v", si.Why, rs.faultCall, cfg.Backend, cfg.SingleUse),
+				j.col.add(j.ord, fmt.Sprintf("A dead-token-accepted-after-ignored-store-fault why=%s failed=%s backend=%s", si.Why, rs.faultCall, cfg.Backend),
 					"an unsafe request reached the handler with a token that is "+si.Why+"; an earlier storage failure was swallowed by the middleware",
 					rs.caseOf(hist, ""), si.ob, "rejected ("+si.Why+")")
 			} else {
@@ -707,7 +704,7 @@ func (rs *runState) judge(hist []opA, si stepInfo, j *judgeCtx) {
 			}
 		}
 		if si.ob.Reached && faultHere {
-			j.col.add(j.ord, fmt.Sprintf("A store-fault-ignored req=unsafe backend=%s singleuse=%v failed=%s", cfg.Backend, cfg.SingleUse, fdesc),
+			j.col.add(j.ord, fmt.Sprintf("A store-fault-ignored req=unsafe backend=%s failed=%s", cfg.Backend, si.ob.Failed),
 				"a storage call failed while an unsafe request was processed, yet the request reached the protected handler",
 				rs.caseOf(hist, ""), si.ob, "if the token store fails the request is rejected")
 		}
@@ -865,7 +862,7 @@ func bfs(r *core.Run, col *collector, cfg cfgA, cfgIdx int, samples *[]any) bfsR
 		if len(cs) > 0 {
 			res.MaxDepth = depth + 1
 		}
-		if !last && len(frontier) > 0 && depth >= 1 && len(*samples) < 8 && cfgIdx%5 == 0 {
+		if !last && len(frontier) > 0 && depth >= 1 {
 			s := frontier[len(frontier)/2]
 			*samples = append(*samples, map[string]any{"harness": "A", "config": cfg.name(), "depth": depth + 1, "history": histStrings(s.Hist), "state_key": s.Key})
 		}
@@ -888,34 +885,80 @@ func runA(r *core.Run, col *collector, samples *[]any, only string) map[string]a
 		return t
 	}
 	all := []int{0, 1}
+	// quick-tier depths per extractor (the extractors share one state space; header and cookie get the deepest search)
+	nq := map[string]int{"header": 5, "form": 4, "query": 4, "param": 4, "cookie": 5} // no injected failure
+	fq := map[string]int{"header": 4, "form": 3, "query": 3, "param": 3, "cookie": 3} // one injected failure
+	sq := map[string]int{"header": 4, "cookie": 4, "form": 3}                         // session backends
 	for _, ext := range []string{"header", "form", "query", "param", "cookie"} {
 		for _, su := range []bool{false, true} {
 			cfgs = append(cfgs,
-				cfgA{ext, "storage", su, 0, d(4, 5), all},
-				cfgA{ext, "storage", su, 1, d(3, 4), all},
+				cfgA{ext, "storage", su, 0, d(nq[ext], 7), all},
+				cfgA{ext, "storage", su, 1, d(fq[ext], 5), all},
 			)
 		}
 	}
 	for _, ext := range []string{"header", "cookie", "form"} {
 		for _, su := range []bool{false, true} {
 			cfgs = append(cfgs,
-				cfgA{ext, "session-direct", su, 0, d(3, 4), all},
-				cfgA{ext, "session-direct", su, 1, d(2, 3), all},
-				cfgA{ext, "session-mw", su, 0, d(3, 4), []int{1}},
+				cfgA{ext, "session-direct", su, 0, d(sq[ext], 6), all},
+				cfgA{ext, "session-direct", su, 1, d(3, 4), all},
+				cfgA{ext, "session-mw", su, 0, d(sq[ext], 6), []int{1}},
 			)
 		}
 	}
 	for _, su := range []bool{false, true} {
-		cfgs = append(cfgs, cfgA{"header", "builtin", su, 0, d(2, 3), nil})
+		cfgs = append(cfgs, cfgA{"header", "builtin", su, 0, d(3, 3), nil})
 	}
 	per := map[string]any{}
 	tot := bfsResult{}
+	results := make([]*bfsResult, len(cfgs))
+	csamples := make([][]any, len(cfgs))
+	secs := make([]float64, len(cfgs))
+	// configurations are independent searches: run a few of them side by side (each one
+	// parallelises its own levels), biggest first
+	order := make([]int, len(cfgs))
+	for i := range order {
+		order[i] = i
+	}
+	sort.SliceStable(order, func(a, b int) bool {
+		x, y := cfgs[order[a]], cfgs[order[b]]
+		if x.Faults != y.Faults {
+			return x.Faults > y.Faults
+		}
+		return x.Depth > y.Depth
+	})
+	var wg sync.WaitGroup
+	var next int
+	var nmu sync.Mutex
+	for w := 0; w < 6; w++ {
+		wg.Add(1)
+		go func() {
+			defer wg.Done()
+			for {
+				nmu.Lock()
+				oi := next
+				next++
+				nmu.Unlock()
+				if oi >= len(order) {
+					return
+				}
+				i := order[oi]
+				if only != "" && !strings.Contains(cfgs[i].name(), only) {
+					continue
+				}
+				t0 := time.Now()
+				res := bfs(r, col, cfgs[i], i, &csamples[i])
+				results[i] = &res
+				secs[i] = time.Since(t0).Seconds()
+			}
+		}()
+	}
+	wg.Wait()
 	for i, c := range cfgs {
-		if only != "" && !strings.Contains(c.name(), only) {
+		if results[i] == nil {
 			continue
 		}
-		t0 := time.Now()
-		res := bfs(r, col, c, i, samples)
+		res := *results[i]
 		tot.States += res.States
 		tot.Transitions += res.Transitions
 		if res.MaxDepth > tot.MaxDepth {
@@ -927,15 +970,19 @@ func runA(r *core.Run, col *collector, samples *[]any, only string) map[string]a
 		if res.Capped {
 			r.Cap("harness A stopped by the wall-clock budget in " + c.name())
 		}
+		if len(*samples) < 9 && len(csamples[i]) > 0 && i%7 == 0 {
+			*samples = append(*samples, csamples[i][len(csamples[i])-1])
+		}
 		if only != "" {
-			fmt.Printf("  %-45s depth<=%d states=%d transitions=%d levels=%v %.1fs\n", c.name(), c.Depth, res.States, res.Transitions, res.PerLevel, time.Since(t0).Seconds())
+			fmt.Printf("  %-45s depth<=%d states=%d transitions=%d levels=%v %.1fs\n", c.name(), c.Depth, res.States, res.Transitions, res.PerLevel, secs[i])
 		}
 	}
 	return map[string]any{
 		"states": tot.States, "transitions": tot.Transitions, "traces": tot.Transitions, "max_depth": tot.MaxDepth, "per_config": per,
 		"bounds": map[string]any{
 			"clients": clientName, "configs": len(cfgs), "idle_timeout": idle.String(), "ticks": tickName,
-			"depth_storage_nofault": d(4, 5), "depth_storage_fault": d(3, 4), "depth_session": d(3, 4), "depth_session_fault": d(2, 3), "depth_builtin": d(2, 3),
+			"depth_storage_nofault": d(5, 7), "depth_storage_nofault_form_query_param": d(4, 7), "depth_storage_fault_header": d(4, 5), "depth_storage_fault_others": d(3, 5),
+			"depth_session": d(4, 6), "depth_session_form": d(3, 6), "depth_session_fault": d(3, 4), "depth_builtin": 3,
 			"max_injected_failures_per_history": 1,
 		},
 		"time_sources": "storage backend: expiry decided only by Storage.Get/Set(exp) -> owned by the injected storage's virtual clock; the cookie Expires attribute uses time.Now() (client side, not judged). session backend: sessionManager stamps Token.Expiration with time.Now() and compares with time.Now() (wall clock, not ownable) - only the session entry's storage expiry is owned, therefore session-mw configurations tick by idle+1s only. built-in memory storage: utils.Timestamp() wall clock - no ticks",
